@@ -55,16 +55,27 @@ Theorem C07_compound_assignment : forall var o e, clean e = true -> accepts_comp
 Proof. exact compound_spec. Qed.
 Print Assumptions C07_compound_assignment.
 
-(* P7'  known findings cast-method-pow and cast-lt are real in the model: `a ** b` (int base,
-        float result) and `a < x` (int < float) type-check but the emitted tokens are not Rust *)
+(* P7'  known findings tail-cast-pow and tail-cast-lt are real in the model: `(2.5 + a) ** x`
+        and `(x + a) < y` type-check but the emitted tokens are not Rust (Paren is dropped and
+        the left operand's text ends in a cast) *)
 Theorem C07_cast_findings_refuted :
-  (let e := ABin OPow (AVar false) (AVar false) in
+  (let e := ABin OPow (AParen (ABin OAdd AFloatLit (AVar false))) (AVar true) in
    clean e = false /\ chk e = ResolvedType_Float /\ rust_ty (fst (lower e)) = None) /\
-  (let l := AVar false in let r := AVar true in
+  (let l := AParen (ABin OAdd (AVar true) (AVar false)) in let r := AVar true in
    cast_lt CLt l r = true /\ chk_cmp CLt (chk l) (chk r) = ResolvedType_Bool /\
    rust_ty (IBin (ast_to_ir (cop_ast CLt)) (fst (lower l)) (ir_of (chk l)) (fst (lower r)) (ir_of (chk r))) = None).
 Proof. exact cast_findings_refuted. Qed.
 Print Assumptions C07_cast_findings_refuted.
+
+(* P7''  regression witnesses of the repaired findings cast-method-pow (`a ** b`) and cast-lt (`a < x`) *)
+Theorem C07_cast_findings_fixed :
+  (let e := ABin OPow (AVar false) (AVar false) in
+   clean e = true /\ chk e = ResolvedType_Float /\ rust_ty (fst (lower e)) = Some RF64) /\
+  (let l := AVar false in let r := AVar true in
+   cast_lt CLt l r = false /\
+   rust_ty (IBin (ast_to_ir (cop_ast CLt)) (fst (lower l)) (ir_of (chk l)) (fst (lower r)) (ir_of (chk r))) = Some RBool).
+Proof. exact cast_findings_fixed. Qed.
+Print Assumptions C07_cast_findings_fixed.
 
 (* P7  known finding neg-paren-zero: `x ** -(0)` is float for the checker and lowering but the
        emitter chooses integer exponentiation *)
